@@ -1,6 +1,7 @@
 import BreezyVerif.Lemmas.C25Rbd
 import BreezyVerif.Lemmas.C25Touch
 import BreezyVerif.Lemmas.C25Steps
+import BreezyVerif.Lemmas.C25Inv
 import BreezyVerif.Props.C22
 /-!
 C25 — theorems.  All view lists, all graphs (`wf` = topologically numbered),
@@ -546,6 +547,66 @@ theorem touching_members (modified : List Nat) (inc : Bool) (l : List V) (x : V)
   rcases touching_subset modified inc l [none] x h with h | h
   · exact h
   · simp at h
+
+/-! ## reverse_by_depth is an involution on forests -/
+
+/-- **`reverse_by_depth` is an involution on well-nested lists** (forests in pre-order: every list that starts
+at depth 0 and whose depths go up by at most one per step, in particular every merge-sorted view of a whole
+branch): applied to its own result it gives the list back.  Together with `rbd_perm` and
+`rbd_depth0_reversed` (at every level: `rbd_core`) this pins the grouping: a revision keeps the revisions it
+encloses right behind it. -/
+theorem rbd_involution (l : List V) (hwn : wellNested l = true) (hrev : ∀ v ∈ l, v.revno ≠ []) :
+    ∃ r, reverseByDepth l = some r ∧ reverseByDepth r = some l ∧ r.Perm l := by
+  obtain ⟨r, h1, h2, hp⟩ := rbd_invol_core (rbdFuel l) 0 l (fun _ _ => Nat.zero_le _) (need_zero_lt_fuel l) hwn
+  have hkeep : ∀ x : List V, (∀ v ∈ x, v.revno ≠ []) → x.filter (fun v => !v.revno.isEmpty) = x := by
+    intro x hx
+    rw [List.filter_eq_self]
+    intro v hv
+    have := hx v hv
+    cases hr : v.revno with
+    | nil => exact absurd hr this
+    | cons _ _ => rfl
+  have hrrev : ∀ v ∈ r, v.revno ≠ [] := fun v hv => hrev v (hp.mem_iff.mp hv)
+  refine ⟨r, ?_, ?_, hp⟩
+  · simp only [reverseByDepth, h1, Option.map_some, hkeep r hrrev]
+  · simp only [reverseByDepth, rbdFuel_perm hp, h2, Option.map_some, hkeep l hrev]
+
+example : wellNested [⟨5, [3], 0⟩, ⟨4, [1, 1, 2], 1⟩, ⟨3, [1, 2, 1], 2⟩, ⟨2, [1, 1, 1], 1⟩, ⟨1, [2], 0⟩, ⟨0, [1], 0⟩] = true := by
+  decide
+-- the hypothesis matters: a sub-range that starts inside a merge is not a forest, and not a fixed point of rbd ∘ rbd
+example : wellNested [⟨3, [1, 2, 1], 2⟩, ⟨2, [1, 1, 1], 1⟩, ⟨1, [2], 0⟩] = false ∧
+    (reverseByDepth [⟨3, [1, 2, 1], 2⟩, ⟨2, [1, 1, 1], 1⟩, ⟨1, [2], 0⟩]).bind reverseByDepth
+      ≠ some [⟨3, [1, 2, 1], 2⟩, ⟨2, [1, 1, 1], 1⟩, ⟨1, [2], 0⟩] := by decide
+
+/-- **Every merge-sorted view of a whole branch is a forest in pre-order.** -/
+theorem mergeSort_wellNested (g : Graph) (tip : Nat) (ms : List MS) (hw : wf g = true) (ht : tip < g.length)
+    (h : mergeSort g tip = some ms) : wellNested (ms.map ofMS) = true := by
+  have hs := mergeSort_stepwise_core g ((wf_iff g).mp hw) tip ht ms h
+  obtain ⟨e, rest, hcons, _, hdepth⟩ := mergeSort_tip_first g tip ms hw ht h
+  apply wellNested_of_stepwise _ 0 _ (fun _ _ => Nat.zero_le _) (need_zero_lt_fuel _)
+  rw [hcons] at hs ⊢
+  simp only [List.map_cons, stepwise, Bool.and_eq_true, decide_eq_true_eq] at hs ⊢
+  exact ⟨by simp [ofMS, hdepth], hs.2⟩
+
+/-- **Forward and reverse logs of a whole branch are each other's reverse-by-depth**: the forward log is
+`_rebase_merge_depth` of the reverse-by-depth `r` of the reverse log, and the reverse-by-depth of `r` is the
+reverse log again. -/
+theorem forward_reverse_involution (b : Branch) (t : Nat) (hw : wf b.g = true) (htip : b.tip = some t)
+    (ht : t < b.g.length) :
+    ∃ rev r, logRequest b none none false 0 0 false = .ok rev ∧ reverseByDepth rev = some r ∧
+      logRequest b none none true 0 0 false = .ok (rebaseMergeDepth r) ∧ reverseByDepth r = some rev := by
+  obtain ⟨ms, hms, hrev, _⟩ := view_complete_once b t hw htip ht
+  obtain ⟨rev', r', hrev', hr', hfwd⟩ := forward_is_rbd_of_reverse b t hw htip ht
+  rw [hrev] at hrev'
+  cases hrev'
+  have hne : ∀ v ∈ ms.map ofMS, v.revno ≠ [] := by
+    intro v hv
+    obtain ⟨e, he, rfl⟩ := List.mem_map.mp hv
+    exact mergeSort_revno_ne_nil b.g t ms hms e he
+  obtain ⟨r, h1, h2, _⟩ := rbd_involution (ms.map ofMS) (mergeSort_wellNested b.g t ms hw ht hms) hne
+  rw [hr'] at h1
+  cases h1
+  exact ⟨_, _, hrev, hr', hfwd, h2⟩
 
 /-! ## the per-file filter computes its specification -/
 
